@@ -170,6 +170,25 @@ var (
 	k4Sched = []int{0, 0, 0, 3, 3, 3, 3, 0}
 )
 
+// corpus: minimized failing schedules of defects that were fixed; run first on every check.
+// fixed 1123673 (close-races-last-poll): the Write completes and Close is called between the consumer's
+// failed TryNext and its isDone check; before the fix Next returned nil and the message stayed in the ring.
+func (s *sess) corpus() {
+	msgs := [][]uint64{{100}}
+	for _, wt := range []bool{true, false} {
+		sched := []int{0, 0, 3, 3, 3, 3, 2, 0}
+		if !wt {
+			sched = []int{0, 3, 3, 3, 2, 0}
+		}
+		j := &Job{ID: s.nextID(), Level: "writer", Size: 1, Msgs: msgs, Bytes: mkBytes(msgs), Waiter: wt, Gated: true, Budget: 10, Mode: "list", Scheds: [][]int{sched}, Post: "finish"}
+		s.explore(j, exploreOpt{coqEvery: 1, label: "corpus close-races-last-poll"})
+	}
+	msgs3 := [][]uint64{{100, 101, 102}}
+	j := &Job{ID: s.nextID(), Level: "writer", Size: 1, Msgs: msgs3, Bytes: mkBytes(msgs3), Waiter: false, Gated: true, Budget: 10, Mode: "list",
+		Scheds: [][]int{{0, 3, 0, 3, 3, 0, 0, 3, 3, 0, 0, 0, 0, 3, 0, 0, 3, 3, 0, 3, 2, 0}}, Post: "finish"}
+	s.explore(j, exploreOpt{coqEvery: 1, label: "corpus close-races-last-poll"})
+}
+
 func (s *sess) ringDFS(cfgs [][3]int, extra int, label string) {
 	for _, cfg := range cfgs {
 		j := &Job{ID: s.nextID(), Level: "diode", Size: cfg[2], Msgs: mkMsgs(cfg[0], cfg[1]), Budget: cfg[0]*cfg[1] + extra, Mode: "dfs", Post: "drain"}
@@ -257,7 +276,8 @@ func RunC10(c *hlib.Ctx) {
 func RunC11(c *hlib.Ctx) {
 	s := openSess(c, "C11")
 	defer s.b.Cleanup()
-	// known-finding witnesses first, on the real instrumented code
+	s.corpus()
+	// known-finding witnesses, on the real instrumented code
 	s.explore(&Job{ID: s.nextID(), Level: "diode", Size: 2, Msgs: k2Msgs, Budget: 10, Mode: "list", Scheds: [][]int{k2Sched}, Post: "drain"}, exploreOpt{coqEvery: 1, label: "K2-witness"})
 	s.explore(&Job{ID: s.nextID(), Level: "diode", Size: 2, Msgs: k3Msgs, Budget: 10, Mode: "list", Scheds: [][]int{k3Sched}, Post: "drain"}, exploreOpt{coqEvery: 1, label: "K3-witness"})
 	s.ringDFS([][3]int{{1, 2, 1}, {2, 1, 2}, {2, 1, 1}, {1, 3, 2}}, 2, "exhaustive")
@@ -277,6 +297,7 @@ func RunC11(c *hlib.Ctx) {
 func RunC12(c *hlib.Ctx) {
 	s := openSess(c, "C12")
 	defer s.b.Cleanup()
+	s.corpus()
 	msgs := k4Msgs
 	s.explore(&Job{ID: s.nextID(), Level: "writer", Size: 2, Msgs: msgs, Bytes: mkBytes(msgs), Waiter: true, Gated: true, Budget: 10, Mode: "list", Scheds: [][]int{k4Sched}, Post: "finish"}, exploreOpt{coqEvery: 1, label: "K4-witness"})
 	type wc struct {
